@@ -66,7 +66,9 @@ theorem readLine_wf (w : W) (h : WF w) : WF (readLine w).1 := by
   unfold readLine
   simp only []
   split <;> rename_i heq <;> rw [heq] at this <;> simp only [] at this
-  · split <;> exact this
+  · split
+    · exact this
+    · split <;> exact this
   · exact this
 
 theorem limRead_wf (w : W) (m : Nat) (h : WF w) (he : w.err = none) : WF (limRead w m).1 := by
